@@ -10,7 +10,7 @@ from usim import time, until, Scope, IntervalExceeded
 PROPERTY = 'C14'
 LEVEL = 'exploration'
 RULE = (
-    'tickers `async for now in interval(p)` / `delay(p)` with p in {0, 1/8, 1, 5, 20}, 1-12 '
+    'tickers `async for now in interval(p)` / `delay(p)` (also created some time before they are iterated) with p in {0, 1/8, 1, 5, 20}, 1-12 '
     'iterations whose body durations are <, = and > p (also zero), start times {0, 3/8, 1e6, 1e10, 2**45}, '
     '1-4 tickers side by side, some inside until(time + D) / nested scopes, negative periods. '
     'Oracle: arithmetic model over the generated body-duration sequence - tick times, yielded '
@@ -53,7 +53,9 @@ def make_case(seed, index, tier):
         deadline = rng.choice([None, None, None, 0.5, 2, 7, 30])
         tickers.append({'name': 'k%d' % number, 'how': rng.choice(['interval', 'delay']),
                         'period': period, 'durations': durations, 'deadline': deadline,
-                        'offset': rng.choice([0, 0, 0.375, 1]), 'scoped': rng.random() < 0.3})
+                        'offset': rng.choice([0, 0, 0.375, 1]), 'scoped': rng.random() < 0.3,
+                        # the ticker object is created some time before it is iterated
+                        'early': rng.choice([None, None, None, 0, 0.375, 1, max(period, 0) + 1])})
     return {'seed': seed, 'index': index, 'tier': tier, 'start': rng.choice([0, 0, 0.375, 1e6, 1e10, 2.0 ** 45]),
             'tickers': tickers}
 
@@ -87,6 +89,7 @@ def run_case(case):
     ends = {spec['name']: None for spec in case['tickers']}
     begins = {}
     yields = {spec['name']: [] for spec in case['tickers']}
+    stats_early = [0]
 
     def ticker(spec):
         name = spec['name']
@@ -94,12 +97,22 @@ def run_case(case):
         async def body():
             if spec['offset']:
                 await (time + spec['offset'])
-            begins[name] = time.now
             maker = usim.interval if spec['how'] == 'interval' else usim.delay
             count = 0
             body_end_n = None
+            # kept in a box that is emptied on the way out, never in a local of its own
+            # (see known finding D16 of C03)
+            box = []
             try:
-                async for now in maker(spec['period']):
+                if spec.get('early') is not None:
+                    box.append(maker(spec['period']))
+                    if spec['early']:
+                        await (time + spec['early'])
+                    stats_early[0] += 1
+                else:
+                    box.append(None)
+                begins[name] = time.now
+                async for now in (box[0] if box[0] is not None else maker(spec['period'])):
                     log[name].append((time.now, now, sess.n, body_end_n))
                     duration = spec['durations'][count]
                     if duration:
@@ -113,6 +126,8 @@ def run_case(case):
                 ends[name] = ('IntervalExceeded', time.now)
             except ValueError:
                 ends[name] = ('ValueError', time.now)
+            finally:
+                box.clear()
 
         async def run():
             if spec['deadline'] is not None:
@@ -136,7 +151,8 @@ def run_case(case):
     outcome = sess.run(*[ticker(spec) for spec in case['tickers']], start=case['start'])
     violations = [dict(v) for v in sess.violations if v['mechanism'].startswith('kernel-')]
     stats = {'ticks_checked': 0, 'exceeded_checked': 0, 'zero_period_ticks': 0,
-             'cut_by_deadline': 0, 'value_errors': 0, 'activations': sess.n}
+             'cut_by_deadline': 0, 'value_errors': 0, 'activations': sess.n,
+             'created_before_iteration': stats_early[0]}
     if outcome[0] != 'ok':
         violations.append({'mechanism': 'c14:run-failed',
                            'msg': 'run() ended with %r' % (outcome[1],)})
